@@ -145,6 +145,38 @@ func TestVerifAuditSplitJoin(t *testing.T) {
 	report(t, "token_is_atomic/split/join", auditCases)
 }
 
+// The functional models of strings.SplitN(s, sep, 2) and of a two-element strings.Split (C12 key spec, C14 template
+// variables): the cut is at the first occurrence of sep; with exactly two parts s == a + sep + b and sep is in
+// neither; the first part is always sep-free and s starts with it followed by sep when there are more parts.
+func TestVerifAuditSplitFunctional(t *testing.T) {
+	r := auditRand()
+	seps := []string{"=", ":", ",", "://"}
+	for i := 0; i < auditCases; i++ {
+		v := auditString(r)
+		if i%3 == 0 {
+			v = auditString(r) + seps[r.Intn(len(seps))] + auditString(r)
+		}
+		for _, sep := range seps {
+			n2 := strings.SplitN(v, sep, 2)
+			if ix := strings.Index(v, sep); ix < 0 {
+				if len(n2) != 1 || n2[0] != v {
+					t.Fatalf("SplitN model (no separator) fails for %q / %q", v, sep)
+				}
+			} else if len(n2) != 2 || n2[0] != v[:ix] || n2[1] != v[ix+len(sep):] || strings.Contains(n2[0], sep) || n2[0]+sep+n2[1] != v {
+				t.Fatalf("SplitN model fails for %q / %q: %q", v, sep, n2)
+			}
+			parts := strings.Split(v, sep)
+			if len(parts) == 2 && (parts[0]+sep+parts[1] != v || strings.Contains(parts[0], sep) || strings.Contains(parts[1], sep)) {
+				t.Fatalf("two-part Split model fails for %q / %q", v, sep)
+			}
+			if len(parts) >= 2 && (strings.Contains(parts[0], sep) || !strings.HasPrefix(v, parts[0]+sep)) {
+				t.Fatalf("first-part Split model fails for %q / %q", v, sep)
+			}
+		}
+	}
+	report(t, "splitn_2_and_two_part_split_are_cuts_at_the_first_separator", auditCases*len(seps))
+}
+
 // url_string_parses for the URLs sso builds (scheme, host, path, query)
 func TestVerifAuditURLString(t *testing.T) {
 	r := auditRand()
